@@ -528,3 +528,48 @@ Proof.
     + destruct d as [d|]; [|destruct O]. destruct O as [NI [NQ [Sc Bd]]]. cbn [stored] in S.
       apply xrt_foreign; assumption.
 Qed.
+
+(* ================================================================== a whole container *)
+(* the record r, written in scope `scope`, is read back in manager m as r' *)
+Definition rec_back (par : option nsm) (ft : ftable) (fl : bool) (prefix_of : string -> option string) (m : nsm)
+  (scope : list (string * string)) (kind : string) (ident : option qname) (pairs : list (qname * value)) (x : xnode) (r' : prec) : Prop :=
+  exists label rest d',
+    lookup kind prov_base_cls = Some kind /\ kind <> "Membership" /\
+    record_label kind pairs = Some (label, rest) /\
+    xml_record fl scope kind ident pairs = Some x /\
+    Forall (child_ok fl (mkCtx par ft) m prefix_of scope) (sorted_pairs kind rest) /\
+    match ident with Some q => scoped scope q /\ Bound m q | None => is_element kind = false end /\
+    put_all (has_collection (sorted_pairs kind rest)) (sorted_pairs kind rest) [] = Some d' /\
+    exists sub, read_label label = Some (kind, sub) /\ r' = mkRec kind ident (final_attrs sub d').
+
+Lemma rec_back_reads : forall par ft fl prefix_of b scope kind ident pairs x r',
+  Builtins (bns b) -> rec_back par ft fl prefix_of (bns b) scope kind ident pairs x r' ->
+  exists b', xml_read_record par ft prefix_of b x = (b', OK tt) /\ bns b' = bns b /\ bid b' = bid b /\
+             brecs b' = (brecs b ++ [r'])%list.
+Proof.
+  intros par ft fl prefix_of b scope kind ident pairs x r' BI [label [rest [d' [K [NM [RL [XR [CH [ID [PA [sub [RB ->]]]]]]]]]]]].
+  destruct (xml_record_roundtrip par ft fl prefix_of b scope kind ident pairs label rest x d' K NM BI RL XR CH ID PA)
+    as [sub2 [b' [RB2 [RD [EN [EI ER]]]]]].
+  rewrite RB in RB2. inversion RB2; subst sub2. exists b'. repeat split; assumption.
+Qed.
+
+Theorem xml_container_roundtrip : forall par ft fl prefix_of scope (items : list (string * option qname * list (qname * value) * xnode * prec)) b,
+  Builtins (bns b) ->
+  Forall (fun it => match it with (kind, ident, pairs, x, r') =>
+                      rec_back par ft fl prefix_of (bns b) scope kind ident pairs x r' end) items ->
+  exists b', xml_read_records par ft prefix_of b (map (fun it => snd (fst it)) items) = (b', OK tt) /\
+             bns b' = bns b /\ bid b' = bid b /\
+             brecs b' = (brecs b ++ map (fun it => snd it) items)%list.
+Proof.
+  intros par ft fl prefix_of scope items. induction items as [|[[[[kind ident] pairs] x] r'] items IH]; intros b BI F.
+  - exists b. cbn [map xml_read_records]. rewrite app_nil_r. repeat split; reflexivity.
+  - inversion F as [|it l H F']; subst.
+    destruct (rec_back_reads par ft fl prefix_of b scope kind ident pairs x r' BI H) as [b1 [R1 [N1 [I1 B1]]]].
+    assert (BI1 : Builtins (bns b1)) by (rewrite N1; exact BI).
+    assert (F1 : Forall (fun it => match it with (kind, ident, pairs, x, r') =>
+                      rec_back par ft fl prefix_of (bns b1) scope kind ident pairs x r' end) items) by (rewrite N1; exact F').
+    destruct (IH b1 BI1 F1) as [b2 [R2 [N2 [I2 B2]]]].
+    exists b2. cbn [map xml_read_records fst snd]. rewrite R1. split; [exact R2|].
+    split; [rewrite N2; exact N1|]. split; [rewrite I2; exact I1|].
+    rewrite B2, B1, <- app_assoc. reflexivity.
+Qed.
